@@ -125,6 +125,44 @@ def an_lineage_seq(dialect, cat_text, texts):
     return " ;; ".join(out)
 
 
+def _mutate(res, depth=0):
+    """what a caller that owns its result may do with it: change the containers it was handed, in place"""
+    if depth > 4:
+        return
+    if isinstance(res, list):
+        for x in list(res):
+            _mutate(x, depth + 1)
+        res.append("<changed-by-the-caller>"); res.reverse()
+    elif isinstance(res, dict):
+        for v in list(res.values()):
+            _mutate(v, depth + 1)
+        res["<changed-by-the-caller>"] = []
+    elif isinstance(res, set):
+        res.add("<changed-by-the-caller>")
+    elif isinstance(res, tuple):
+        for x in res:
+            _mutate(x, depth + 1)
+
+
+def an_mut(parts):
+    """ANMUT <same arguments as AN tables / AN columns>: run the analysis as a caller that then CHANGES the list / dict it was given (appends, reverses) and drops
+    it.  An analysis result is the caller's own object; if the library keeps it (a memoised result), the next answer shows the caller's change."""
+    from metasequoia_sql import analyzer as A
+    try:
+        if parts[1] == "tables":
+            cls = {"all": A.AllUsedQuoteTables, "from": A.AllFromClauseUsedQuoteColumn, "join": A.AllJoinClauseUsedQuoteColumn}[parts[2]]
+        elif parts[1] == "columns":
+            cls = {"all": A.CurrentUsedQuoteColumn, "select": A.CurrentSelectClauseUsedQuoteColumn, "join": A.CurrentJoinClauseUsedQuoteColumn,
+                   "where": A.CurrentWhereClauseUsedQuoteColumn, "group": A.CurrentGroupByClauseUsedQuoteColumn, "having": A.CurrentHavingClauseUsedQuoteColumn,
+                   "order": A.CurrentOrderByClauseUsedQuoteColumn, "hash": A.CurrentColumnSelectToDirectQuoteHash}[parts[2]]
+        else:
+            return "BADREQ"
+        _mutate(cls.handle(_first_statement(parts[3], canon.unhex(parts[4]))))
+        return "OK changed"
+    except Exception as e:
+        return "OK nothing-to-change " + type(e).__name__
+
+
 def an(parts):
     if len(parts) >= 5 and parts[1] == "lineage-seq":
         return an_lineage_seq(parts[2], canon.unhex(parts[3]), [canon.unhex(h) for h in parts[4:]])
@@ -137,4 +175,4 @@ def an(parts):
     return "BADREQ"
 
 
-COMMANDS = {"AN": an}
+COMMANDS = {"AN": an, "ANMUT": an_mut}
